@@ -143,7 +143,7 @@ def tlc(module, cfg, workdir, workers=None, extra=None, timeout=900, files=None,
         with open(os.path.join(workdir, k), mode) as f:
             f.write(v)
     meta = tempfile.mkdtemp(prefix='meta', dir=workdir)
-    jopts = ['-XX:+UseParallelGC', '-Xss256m']
+    jopts = ['-XX:+UseParallelGC', '-Xss256m', '-Djava.io.tmpdir=' + meta]     # (TLC's own tlc-<n> directories stay out of /tmp)
     if heap:
         jopts.append('-Xmx' + heap)
     if deque:
